@@ -1145,9 +1145,22 @@ package larking
 //@   loop 1 invariant forall y :: {at(fds, y)} off(fds) <= y && y <= off(fds) + rangeindex ==> at(fds, y) != nil
 //@   loop 1 decreases len(names) - rangeindex
 
+// fieldOf: the message's own descriptor of a field the rule was compiled with (another instance
+// of the same file descriptors when a second backend serves the service, C11). Checked: what it
+// returns from the lookup belongs to the message. Assumed (protobuf: one message type, one field
+// per number): the field found under the same number has the same shape (list / map / message),
+// and the message has a field under that number (the fallback "return fd" is not taken): the two
+// unanchored clauses are assumed at call sites, the anchored one is checked against the body.
+//@ func fieldOf serves C11 C09 C03 trusted pure partial post[found-field
+//@   requires m != nil && fd != nil
+//@   ensures [found-field-belongs-to-the-message C11 C09] at "return own" fdOwner(result) == pay(MsgFields(MsgDescriptor(m))) && result != nil
+//@   ensures [the-messages-own-field-is-used C11 C09] fdOwner(result) == pay(MsgFields(MsgDescriptor(m))) && result != nil
+//@   ensures [same-shape] fdIsList(result) == fdIsList(fd) && fdIsMap(result) == fdIsMap(fd) && (fdMsg(result) != 0) == (fdMsg(fd) != 0)
 //@ spec ParamsWf(ps) = forall x :: {at(ps, x).fds} off(ps) <= x && x < off(ps) + len(ps) ==> FieldPathWf(at(ps, x).fds)
-//@ func (params).set serves C09 C07 C03
+//@ func (params).set serves C09 C07 C03 C11
 //@   returns (err)
+//@   assert atcall `cur.Set(` [a-field-is-set-through-the-messages-own-descriptor C11 C09] fdOwner(arg0) == pay(MsgFields(MsgDescriptor(cur)))
+//@   assert atcall `cur.Mutable(` [a-field-is-reached-through-the-messages-own-descriptor C11 C09] fdOwner(arg0) == pay(MsgFields(MsgDescriptor(cur)))
 //@   requires m != nil && ParamsWf(ps)
 //@   modifies G$pb.
 //@   loop 1 invariant -1 <= rangeindex && rangeindex < len(ps)
@@ -1325,6 +1338,7 @@ package larking
 // at registration are walkable (AllSingular, proved in addRule), so applying them
 // never panics; a stats handler sees one payload event per message.
 //@ func (*streamHTTP).decodeRequestArgs serves C09 C18 C16 partial pre[protoreflect inv.init inv.keep post index make slice ghost
+//@   assert atcall `cur.Mutable(` [the-selector-is-walked-through-the-messages-own-descriptors C11 C09] fdOwner(arg0) == pay(MsgFields(MsgDescriptor(cur)))
 //@   assert atcall `cur.Set(` [http-body-fields-are-looked-up-in-the-message-that-is-filled C03] arg0 != nil ==> fdOwner(arg0) == pay(MsgFields(MsgDescriptor(cur)))
 //@   assert atcall `protoreflect.ValueOfBytes(` [http-body-data-does-not-live-in-the-pooled-buffer C13] len(arg0) == len(b) && (len(b) > 0 ==> base(arg0) != base(b))
 //@   returns (count, err)
@@ -1335,6 +1349,7 @@ package larking
 //@   ensures [no-event-without-message C18] err != nil ==> payloadEvents == 0
 
 //@ func (*streamHTTP).SendMsg serves C04 C09 C18 C16 partial pre[protoreflect inv.init inv.keep post assert index slice ghost
+//@   assert atcall `cur.Mutable(` [the-selector-is-walked-through-the-messages-own-descriptors C11 C09] fdOwner(arg0) == pay(MsgFields(MsgDescriptor(cur)))
 //@   assert atcall `cur.Get(` [http-body-fields-are-looked-up-in-the-message-that-is-written C04] arg0 != nil ==> fdOwner(arg0) == pay(MsgFields(MsgDescriptor(cur)))
 //@   assert atcall `s.getCodec(` [the-codec-is-chosen-for-the-message-that-is-written C04] arg2 == cur
 //@   returns (err)
@@ -1344,7 +1359,8 @@ package larking
 //@   ensures [one-out-payload-event-per-message C18] err == nil && s.opts.statsHandler != nil ==> payloadEvents == 1
 //@   ensures [no-event-without-message C18] err != nil ==> payloadEvents == 0
 
-//@ func (*streamWS).SendMsg serves C09 C16 C18 partial pre[protoreflect inv.init inv.keep assert index nil post
+//@ func (*streamWS).SendMsg serves C09 C16 C18 partial pre[protoreflect inv.init inv.keep assert index nil post ghost
+//@   assert atcall `cur.Mutable(` [the-selector-is-walked-through-the-messages-own-descriptors C11 C09] fdOwner(arg0) == pay(MsgFields(MsgDescriptor(cur)))
 //@   returns (err)
 //@   requires s != nil && s.method != nil && AllSingular(s.method.resp) && impl(v, "proto.Message")
 //@   count payloadEvents `sh.HandleRPC(`
@@ -1362,6 +1378,7 @@ package larking
 // that as the clean end of the stream, io.EOF, and every other read failure as an error, C06)
 //@ spec NormalClosure(e) = typeof(e) == typeid("wsutil.ClosedError") && unbox(e, "wsutil.ClosedError").Code == 1000
 //@ func (*streamWS).RecvMsg serves C09 C16 C08 C06 C18 partial pre[protoreflect inv.init inv.keep assert index nil ghost post
+//@   assert atcall `cur.Mutable(` [the-selector-is-walked-through-the-messages-own-descriptors C11 C09] fdOwner(arg0) == pay(MsgFields(MsgDescriptor(cur)))
 //@   requires s != nil && s.method != nil && AllSingular(s.method.body) && impl(m, "proto.Message")
 //@   assert atcall `protojson.Unmarshal(` [websocket-receive-limit C08] len(arg0) <= s.maxRecv
 //@   assert at "return err" [a-normal-closure-is-the-end-of-the-stream-not-an-error C06] !NormalClosure(err)
